@@ -28,7 +28,7 @@ SPEC = {
     ],
     "jobs": [
         {"name": "asan", "harness": "c02_ttx_faithful", "srcs": ["harness/c02_ttx_faithful.c"], "flavour": "asan",
-         "cases": {"quick": 16000, "thorough": 320000}, "budget": 60},
+         "cases": {"quick": 32000, "thorough": 320000}, "budget": 60},
     ],
     "min_distinct": 40,
     "min_counters": {"transmissions_terminated": 5000, "pages_checked": 5000, "page_events": 5000, "erase_updates": 300,
